@@ -30,8 +30,8 @@ IDENT_POOL = ["AB", "ABC", "B", " A", "", "A", "BC", "X1", "ab", "A B", "--", "Z
 
 def run_impl(case):
     try:
-        RF, classes = fsup.mk_register_file(case["regs"])
-        f = RF.read(codec.dec_str(case["content"]))
+        RF, classes = fsup.mk_register_file(case["regs"], io=case.get("io"))
+        f = fsup.read_text(RF, codec.dec_str(case["content"]), case.get("io"))
         cap = len(case["content"]) + 5
         return {"elems": [fsup.enc_relem(e, classes) for e in fsup.capped(f.data, cap)]}
     except Exception as e:
@@ -188,7 +188,7 @@ def random_content(rng, regs):
         elif r < 0.80:
             l = rng.choice(["\n", " \n", "   \n"])
         elif r < 0.9:
-            l = "".join(rng.choice("ABCXZ ab01-_#;") for _ in range(rng.randrange(1, 12))) + "\n"
+            l = "".join(rng.choice("ABCXZ ab01-_#;" + fsup.NON_ASCII) for _ in range(rng.randrange(1, 12))) + "\n"
         else:
             l = ident + "\n"
         lines.append(l)
@@ -202,7 +202,12 @@ def random_content(rng, regs):
 
 def random_case(rng):
     regs = random_regs(rng)
-    return {"regs": regs, "content": codec.enc_str(random_content(rng, regs))}
+    content = random_content(rng, regs)
+    case = {"regs": regs, "content": codec.enc_str(content)}
+    io = fsup.io_of(rng, [content])
+    if io:
+        case["io"] = io  # the content is read from a path on disk, in the class's declared encoding
+    return case
 
 
 def corpus_cases():
@@ -217,7 +222,7 @@ def corpus_cases():
 
 def chunks(tier, seed):
     ch = [{"kind": "corpus"}]
-    nrand = {"quick": 4000, "thorough": 100000}.get(tier, 12000)
+    nrand = {"quick": 4000, "thorough": 400000}.get(tier, 12000)
     per = max(1, nrand // 16)
     for i in range(16):
         ch.append({"kind": "random", "seed": seed * 1000 + i, "n": per})
